@@ -110,6 +110,12 @@ func (g *DependencyGraph) AddProvider(provider Provider) error {
 		}
 		g.nodes[nodeKey] = node
 	}
+
+	// Remember what is replaced so that a rejected add can be undone
+	prevProvider := node.Provider
+	prevEdges, hadEdges := g.edges[nodeKey]
+	var createdDeps []NodeKey
+
 	node.Provider = provider
 
 	// Clear existing edges for this node (in case of replacement)
@@ -133,6 +139,7 @@ func (g *DependencyGraph) AddProvider(provider Provider) error {
 				Dependencies: make([]NodeKey, 0),
 				Dependents:   make([]NodeKey, 0),
 			}
+			createdDeps = append(createdDeps, depKey)
 		}
 	}
 
@@ -148,9 +155,23 @@ func (g *DependencyGraph) AddProvider(provider Provider) error {
 
 	// Check for cycles immediately
 	if err := g.detectCyclesFrom(nodeKey); err != nil {
-		// Remove the node if it creates a cycle
-		delete(g.nodes, nodeKey)
-		delete(g.edges, nodeKey)
+		// Undo the add if it creates a cycle: drop what it created and
+		// put back what it replaced
+		for _, depKey := range createdDeps {
+			delete(g.nodes, depKey)
+		}
+		if exists {
+			node.Provider = prevProvider
+			if hadEdges {
+				g.edges[nodeKey] = prevEdges
+			} else {
+				node.Dependencies = make([]NodeKey, 0)
+				delete(g.edges, nodeKey)
+			}
+		} else {
+			delete(g.nodes, nodeKey)
+			delete(g.edges, nodeKey)
+		}
 		g.updateDegrees()
 		return err
 	}
